@@ -1,5 +1,4 @@
-import Dashu.Proofs.Float.Sqrt
-import Dashu.Proofs.Float.AddSplit
+import Dashu.Proofs.Float.Closing
 /-
   C03 — Float arithmetic honours the documented rounding contract of its mode.
 
@@ -25,7 +24,11 @@ import Dashu.Proofs.Float.AddSplit
     re-alignment branches of `repr_round_sum`; for every sound `digits_ub` estimator;
   * `repr_div` / `/` / `inv` for every dividend and non-zero divisor, `Context::div` for dividends of at
     most `rhs.digits + p` digits; `sqrt` for every non-negative operand (`ContractSqrt`);
-  * the documented panics of `div` and `sqrt`.
+  * the documented panics of `div` and `sqrt`;
+  * the two closing clauses: a true result representable in `p` digits is returned exactly and flagged
+    `Exact` (`representable_exact`, a consequence of the contract: the result lies on the grid of the
+    error unit; instances for every operation), and no result carries more than `p+1` digits — with the
+    exact conditions under which the `p+1`-st digit can occur (`*_digits`).
   Not covered by theorems (recorded findings, outside "operands that fit p"): `Context::add/sub/mul/
   sqr/cubic/div` on Reprs LONGER than the working length — there the contract is false for the code
   as it is (`mul_preshrink_counterexample`; `repr_round_sum`'s single guard digit is the hypothesis
@@ -184,16 +187,21 @@ theorem div_panics (B : Nat) (m : Mode) (p : Nat) (lhs rhs : FRepr) :
 
 /-- **`Context::sqrt`** (as repaired by 92fc29e) for every non-negative operand (of any length): `r ≥ 0`,
     `Exact ⇔ r² = x`, otherwise `√x` within one ulp (half an ulp for the nearest modes) of `r`, on the
-    side the mode prescribes; every comparison with `√x` is stated on squares (`ContractSqrt`). -/
-theorem sqrt_contract (B : Nat) (hB : 2 ≤ B) (m : Mode) (c : Coarse) (p : Nat) (hp : 1 ≤ p) (x : FRepr)
-    (hs : 0 ≤ x.signif) :
-    ∃ r, ctxSqrt B m c p x = .ok r ∧ ContractSqrt B m p (x.toRat B) (r.1.toRat B) r.2 :=
-  ctxSqrt_contract B hB m c p hp x hs
+    side the mode prescribes; every comparison with `√x` is stated on squares (`ContractSqrt`).
+    `sr` is the integer kernel `UBig::sqrt_rem`, any function meeting its contract `SqrtRemOk`. -/
+theorem sqrt_contract (B : Nat) (hB : 2 ≤ B) (m : Mode) (c : Coarse) (sr : Nat → Nat × Nat) (hsr : SqrtRemOk sr)
+    (p : Nat) (hp : 1 ≤ p) (x : FRepr) (hs : 0 ≤ x.signif) :
+    ∃ r, ctxSqrt B m c sr p x = .ok r ∧ ContractSqrt B m p (x.toRat B) (r.1.toRat B) r.2 :=
+  ctxSqrt_contract B hB m c sr hsr p hp x hs
+
+/-- the integer kernel the driver runs (core `Nat.sqrt`) meets the `sqrt_rem` contract; the link to the
+    mirrored `UBig::sqrt_rem` of property C12 is `Props/C03Link.lean` -/
+theorem sqrt_kernel_nat : SqrtRemOk natSqrtRem := natSqrtRem_ok
 
 /-- the documented panics of `sqrt`: unlimited precision first, then a negative operand -/
-theorem sqrt_panics (B : Nat) (m : Mode) (c : Coarse) (p : Nat) (x : FRepr) :
-    (p = 0 → ctxSqrt B m c p x = .error .unlimitedPrecision) ∧
-    (p ≠ 0 → x.signif < 0 → ctxSqrt B m c p x = .error .rootNegative) := by
+theorem sqrt_panics (B : Nat) (m : Mode) (c : Coarse) (sr : Nat → Nat × Nat) (p : Nat) (x : FRepr) :
+    (p = 0 → ctxSqrt B m c sr p x = .error .unlimitedPrecision) ∧
+    (p ≠ 0 → x.signif < 0 → ctxSqrt B m c sr p x = .error .rootNegative) := by
   unfold ctxSqrt
   constructor
   · intro h; simp [h]
@@ -202,6 +210,171 @@ theorem sqrt_panics (B : Nat) (m : Mode) (c : Coarse) (p : Nat) (x : FRepr) :
 /-- unlimited precision (`p = 0`): `repr_round` is the identity, flagged `Exact` -/
 theorem unlimited_exact (B : Nat) (m : Mode) (c : Coarse) (r : FRepr) : reprRound B m c 0 r = (r, none) :=
   reprRound_unlimited B m c r
+
+/-! ### the recorded findings: excluded regions in closed form
+
+The three remaining `known_findings.jsonl` entries of C03 are keyed by the predicates below (the Python
+twins are `vlib.props.c03.kf_long_operand`; digit counts are those of the normalised operands, which is
+what `Repr::new` / the driver build).  Outside each region the full contract is a theorem; inside, a
+counterexample theorem shows that the code as it is violates it. -/
+
+/-- `Context::mul` pre-shrinks an operand: some operand has more than `2p` digits -/
+def MulShrinkRegion (B p : Nat) (a b : FRepr) : Prop := p ≠ 0 ∧ (a.digits B > 2 * p ∨ b.digits B > 2 * p)
+/-- `Context::sqr` / `cubic` pre-shrink: more than `2p` / `3p` digits -/
+def SqrShrinkRegion (B p : Nat) (a : FRepr) : Prop := p ≠ 0 ∧ a.digits B > 2 * p
+def CubicShrinkRegion (B p : Nat) (a : FRepr) : Prop := p ≠ 0 ∧ a.digits B > 3 * p
+/-- `Context::div` pre-shrinks the dividend: more than `rhs.digits + p` digits -/
+def DivShrinkRegion (B p : Nat) (lhs rhs : FRepr) : Prop := p ≠ 0 ∧ rhs.signif ≠ 0 ∧ lhs.digits B > rhs.digits B + p
+/-- `Context::add` / `sub` beyond the single guard digit: an operand longer than the precision -/
+def AddLongRegion (B p : Nat) (lhs rhs : FRepr) : Prop := p ≠ 0 ∧ (lhs.digits B > p ∨ rhs.digits B > p)
+
+theorem mul_contract_outside_region (B : Nat) (hB : 2 ≤ B) (m : Mode) (c : Coarse) (hc : CoarseSound c)
+    (p : Nat) (hp : 1 ≤ p) (a b : FRepr) (h : ¬ MulShrinkRegion B p a b) :
+    Contract B m p (a.toRat B * b.toRat B) ((ctxMul false B m c p a b).1.toRat B) (ctxMul false B m c p a b).2 := by
+  unfold MulShrinkRegion at h
+  exact mul_contract_partial B hB m c hc p hp a b (by omega) (by omega)
+
+theorem sqr_contract_outside_region (B : Nat) (hB : 2 ≤ B) (m : Mode) (c : Coarse) (hc : CoarseSound c)
+    (p : Nat) (hp : 1 ≤ p) (a : FRepr) (h : ¬ SqrShrinkRegion B p a) :
+    Contract B m p (a.toRat B * a.toRat B) ((ctxSqr false B m c p a).1.toRat B) (ctxSqr false B m c p a).2 := by
+  unfold SqrShrinkRegion at h
+  exact sqr_contract_partial B hB m c hc p hp a (by omega)
+
+theorem cubic_contract_outside_region (B : Nat) (hB : 2 ≤ B) (m : Mode) (c : Coarse) (hc : CoarseSound c)
+    (p : Nat) (hp : 1 ≤ p) (a : FRepr) (h : ¬ CubicShrinkRegion B p a) :
+    Contract B m p (a.toRat B * a.toRat B * a.toRat B) ((ctxCubic false B m c p a).1.toRat B)
+      (ctxCubic false B m c p a).2 := by
+  unfold CubicShrinkRegion at h
+  exact cubic_contract_partial B hB m c hc p hp a (by omega)
+
+theorem div_contract_outside_region (B : Nat) (hB : 2 ≤ B) (m : Mode) (c : Coarse) (dub dlb : Int → Nat)
+    (p : Nat) (hp : 1 ≤ p) (lhs rhs : FRepr) (hb : rhs.signif ≠ 0) (h : ¬ DivShrinkRegion B p lhs rhs) :
+    ∃ r, ctxDiv B m c dub dlb p lhs rhs = .ok r ∧
+      Contract B m p (lhs.toRat B / rhs.toRat B) (r.1.toRat B) r.2 := by
+  unfold DivShrinkRegion at h
+  exact ctx_div_contract_partial B hB m c dub dlb p hp lhs rhs hb (by omega)
+
+theorem add_sub_contract_outside_region (B : Nat) (hB : 2 ≤ B) (m : Mode) (c : Coarse) (hc : CoarseSound c)
+    (dub : Int → Nat) (hdub : DubSound B dub) (p : Nat) (hp : 1 ≤ p) (lhs rhs : FRepr) (rs : Int)
+    (hrs : rs = 1 ∨ rs = -1) (hl : Normalized B lhs) (hr : Normalized B rhs)
+    (hwl : lhs.signif = 0 → lhs.exp = 0) (hwr : rhs.signif = 0 → rhs.exp = 0)
+    (h : ¬ AddLongRegion B p lhs rhs) :
+    Contract B m p (lhs.toRat B + (rs : ℚ) * rhs.toRat B)
+      ((ctxAddSub B m c dub p lhs rhs rs).1.toRat B) (ctxAddSub B m c dub p lhs rhs rs).2 := by
+  unfold AddLongRegion at h
+  exact add_sub_contract B hB m c hc dub hdub p hp lhs rhs rs hrs hl hr hwl hwr (by omega) (by omega)
+
+/-- inside `DivShrinkRegion` the contract fails for the code as it is: base 16, p = 2, HalfAway,
+    `0x17ff·16⁻² / (−2·16²)`: the dividend (4 digits > 1 + 2) is pre-rounded to `0x18·16⁰`, the quotient
+    `−0xc·16⁻²` is returned flagged `Exact`, but `0x17ff` is odd, so the true quotient is not `−0xc·16⁻²`
+    (`0x17ff ≠ 2 · 0xc · 16²`). -/
+theorem div_preshrink_counterexample :
+    ctxDiv 16 .halfAway coarseNone (digitsI 16) (digitsI 16) 2 ⟨0x17ff, -2⟩ ⟨-2, 2⟩ = .ok (⟨-0xc, -2⟩, none) ∧
+    (0x17ff : Int) ≠ 2 * 0xc * 16 ^ 2 ∧
+    (⟨0x17ff, -2⟩ : FRepr).digits 16 > (⟨-2, 2⟩ : FRepr).digits 16 + 2 := by
+  refine ⟨by decide +kernel, by decide, by decide +kernel⟩
+
+/-- inside `AddLongRegion` the contract fails for the code as it is: base 36, p = 1, Down,
+    `21·36⁴⁰ − 979775·36³⁷ = 1·36³⁷` exactly (`21·36³ − 979775 = 1`), but the cancellation is deeper than
+    the single guard digit and the code returns `0` flagged `Inexact(SubOne)`. -/
+theorem add_guard_digit_counterexample :
+    ctxAddSub 36 .down coarseNone (digitsI 36) 1 ⟨21, 40⟩ ⟨-979775, 37⟩ 1 = (⟨0, 0⟩, some .SubOne) ∧
+    (21 : Int) * 36 ^ 3 - 979775 = 1 ∧ (⟨-979775, 37⟩ : FRepr).digits 36 > 1 := by
+  refine ⟨by decide +kernel, by decide, by decide +kernel⟩
+
+/-! ### closing clause 1: `x` representable in `p` digits ⇒ the result is `x`, flagged `Exact`
+
+`Representable B p x :⇔ ∃ M j, |M| < B^p ∧ x = M · B^j`. -/
+
+/-- the clause is a consequence of the contract, for every operation at once -/
+theorem representable_exact (B : Nat) (hB : 2 ≤ B) (m : Mode) (p : Nat) (x r : ℚ) (flag : Option Rounding)
+    (h : Contract B m p x r flag) (hrep : Representable B p x) : r = x ∧ flag = none :=
+  h.representable_exact hB hrep
+
+/-- … and of `ContractSqrt`: if `√v` is a `p`-digit number `w`, the result is `w`, flagged `Exact` -/
+theorem sqrt_representable_exact_of_contract (B : Nat) (hB : 2 ≤ B) (m : Mode) (p : Nat) (v r : ℚ)
+    (flag : Option Rounding) (h : ContractSqrt B m p v r flag) (w : ℚ) (hw0 : 0 ≤ w)
+    (hrep : Representable B p w) (hwv : w * w = v) : r = w ∧ flag = none :=
+  h.representable_exact hB w hw0 hrep hwv
+
+theorem add_sub_representable_exact (B : Nat) (hB : 2 ≤ B) (m : Mode) (c : Coarse) (hc : CoarseSound c)
+    (dub : Int → Nat) (hdub : DubSound B dub) (p : Nat) (hp : 1 ≤ p) (lhs rhs : FRepr) (rs : Int)
+    (hrs : rs = 1 ∨ rs = -1) (hl : Normalized B lhs) (hr : Normalized B rhs)
+    (hwl : lhs.signif = 0 → lhs.exp = 0) (hwr : rhs.signif = 0 → rhs.exp = 0)
+    (hld : lhs.digits B ≤ p) (hrd : rhs.digits B ≤ p)
+    (hrep : Representable B p (lhs.toRat B + (rs : ℚ) * rhs.toRat B)) :
+    (ctxAddSub B m c dub p lhs rhs rs).1.toRat B = lhs.toRat B + (rs : ℚ) * rhs.toRat B ∧
+    (ctxAddSub B m c dub p lhs rhs rs).2 = none :=
+  (addSub_fits_contract B hB m c hc dub hdub p hp lhs rhs rs hrs hl hr hwl hwr hld hrd).representable_exact hB hrep
+
+theorem mul_representable_exact (B : Nat) (hB : 2 ≤ B) (m : Mode) (c : Coarse) (hc : CoarseSound c)
+    (p : Nat) (hp : 1 ≤ p) (a b : FRepr) (hrep : Representable B p (a.toRat B * b.toRat B)) :
+    (opMul B m c p a b).1.toRat B = a.toRat B * b.toRat B ∧ (opMul B m c p a b).2 = none :=
+  (opMul_contract B hB m c hc p hp a b).representable_exact hB hrep
+
+theorem sqr_representable_exact (B : Nat) (hB : 2 ≤ B) (m : Mode) (c : Coarse) (hc : CoarseSound c)
+    (p : Nat) (hp : 1 ≤ p) (a : FRepr) (hrep : Representable B p (a.toRat B * a.toRat B)) :
+    (ctxSqr true B m c p a).1.toRat B = a.toRat B * a.toRat B ∧ (ctxSqr true B m c p a).2 = none :=
+  (ctxSqr_contract B hB m c hc p hp a).representable_exact hB hrep
+
+theorem cubic_representable_exact (B : Nat) (hB : 2 ≤ B) (m : Mode) (c : Coarse) (hc : CoarseSound c)
+    (p : Nat) (hp : 1 ≤ p) (a : FRepr) (hrep : Representable B p (a.toRat B * a.toRat B * a.toRat B)) :
+    (ctxCubic true B m c p a).1.toRat B = a.toRat B * a.toRat B * a.toRat B ∧ (ctxCubic true B m c p a).2 = none :=
+  (ctxCubic_contract B hB m c hc p hp a).representable_exact hB hrep
+
+theorem div_representable_exact (B : Nat) (hB : 2 ≤ B) (m : Mode) (p : Nat) (hp : 1 ≤ p) (lhs rhs : FRepr)
+    (hb : rhs.signif ≠ 0) (hrep : Representable B p (lhs.toRat B / rhs.toRat B)) :
+    ∃ r, reprDiv B m p lhs rhs = .ok r ∧ r.1.toRat B = lhs.toRat B / rhs.toRat B ∧ r.2 = none := by
+  obtain ⟨r, h1, h2⟩ := reprDiv_contract B hB m p hp lhs rhs hb
+  exact ⟨r, h1, h2.representable_exact hB hrep⟩
+
+theorem sqrt_representable_exact (B : Nat) (hB : 2 ≤ B) (m : Mode) (c : Coarse) (sr : Nat → Nat × Nat)
+    (hsr : SqrtRemOk sr) (p : Nat) (hp : 1 ≤ p)
+    (x : FRepr) (hs : 0 ≤ x.signif) (w : ℚ) (hw0 : 0 ≤ w) (hrep : Representable B p w)
+    (hwv : w * w = x.toRat B) :
+    ∃ r, ctxSqrt B m c sr p x = .ok r ∧ r.1.toRat B = w ∧ r.2 = none := by
+  obtain ⟨r, h1, h2⟩ := ctxSqrt_contract B hB m c sr hsr p hp x hs
+  exact ⟨r, h1, h2.representable_exact hB w hw0 hrep hwv⟩
+
+/-! ### closing clause 2: no result carries more than `p+1` significant digits — and when the `p+1`-st
+    digit can occur at all -/
+
+/-- `repr_round` (hence `with_precision`, `mul`, `sqr`, `cubic`, `sqrt`): never more than `p` digits -/
+theorem repr_round_digits (B : Nat) (hB : 2 ≤ B) (m : Mode) (c : Coarse) (p : Nat) (hp : 1 ≤ p) (r : FRepr) :
+    (reprRound B m c p r).1.digits B ≤ p := reprRound_digits_le B hB m c p hp r
+
+theorem mul_sqr_cubic_digits (fixed : Bool) (B : Nat) (hB : 2 ≤ B) (m : Mode) (c : Coarse) (p : Nat) (hp : 1 ≤ p)
+    (a b : FRepr) :
+    (ctxMul fixed B m c p a b).1.digits B ≤ p ∧ (opMul B m c p a b).1.digits B ≤ p ∧
+    (ctxSqr fixed B m c p a).1.digits B ≤ p ∧ (ctxCubic fixed B m c p a).1.digits B ≤ p :=
+  ⟨ctxMul_digits_le fixed B hB m c p hp a b, ctxMul_digits_le true B hB m c p hp a b,
+   ctxSqr_digits_le fixed B hB m c p hp a, ctxCubic_digits_le fixed B hB m c p hp a⟩
+
+theorem sqrt_digits (B : Nat) (hB : 2 ≤ B) (m : Mode) (c : Coarse) (sr : Nat → Nat × Nat) (p : Nat) (hp : 1 ≤ p)
+    (x : FRepr) (hs : 0 ≤ x.signif) : ∃ r, ctxSqrt B m c sr p x = .ok r ∧ r.1.digits B ≤ p :=
+  ctxSqrt_digits_le B hB m c sr p hp x hs
+
+/-- `add` / `sub` (operands of any length): at most `p+1` digits; at most `p` unless the operation is an
+    effective subtraction (`sign lhs ≠ rs · sign rhs`) of non-zero operands with different exponents —
+    exactly the case in which `repr_round_sum` keeps its guard digit -/
+theorem add_sub_digits (B : Nat) (hB : 2 ≤ B) (m : Mode) (c : Coarse) (dub : Int → Nat)
+    (p : Nat) (hp : 1 ≤ p) (lhs rhs : FRepr) (rs : Int) (hrs : rs = 1 ∨ rs = -1)
+    (hwl : lhs.signif = 0 → lhs.exp = 0) (hwr : rhs.signif = 0 → rhs.exp = 0) :
+    (ctxAddSub B m c dub p lhs rhs rs).1.digits B ≤ p + 1 ∧
+    ((lhs.isZero = true ∨ rhs.isZero = true ∨ lhs.exp = rhs.exp ∨ sgn lhs.signif = rs * sgn rhs.signif) →
+      (ctxAddSub B m c dub p lhs rhs rs).1.digits B ≤ p) :=
+  ctxAddSub_digits_le B hB m c dub p hp lhs rhs rs hrs hwl hwr
+
+/-- `repr_div` / `inv` (dividend of at most `rhs.digits + p` digits): at most `p+1` digits; at most `p`
+    whenever the integer quotient of the significands is non-zero and below `B^p` — so for operands that
+    fit `p` the `p+1`-st digit can appear only when `|lhs.signif| < |rhs.signif|` (e.g. `2/13` at 2 digits
+    = `0.153`) -/
+theorem div_digits (B : Nat) (hB : 2 ≤ B) (m : Mode) (p : Nat) (hp : 1 ≤ p) (lhs rhs : FRepr)
+    (hb : rhs.signif ≠ 0) (hfit : lhs.digits B ≤ rhs.digits B + p) :
+    ∃ r, reprDiv B m p lhs rhs = .ok r ∧ r.1.digits B ≤ p + 1 ∧
+      (Int.tdiv lhs.signif rhs.signif ≠ 0 → |Int.tdiv lhs.signif rhs.signif| < ((B ^ p : Nat) : Int) →
+        r.1.digits B ≤ p) :=
+  reprDiv_digits_le B hB m p hp lhs rhs hb hfit
 
 /-! ### non-vacuity -/
 
@@ -214,6 +387,13 @@ example : ctxAddSub 10 .zero coarseNone (digitsI 10) 3 ⟨12, 1⟩ ⟨7, 0⟩ 1 
     (((⟨12, 1⟩ : FRepr).exp - (⟨7, 0⟩ : FRepr).exp).toNat + (⟨12, 1⟩ : FRepr).digits 10 ≤ 3) := by
   decide +kernel
 -- sqrt(2.1) at 2 digits, HalfAway: 1.4 (NoOp) — 1.5 before fix 92fc29e
-example : ctxSqrt 10 .halfAway coarseNone 2 ⟨21, -1⟩ = .ok (⟨14, -1⟩, some .NoOp) := by decide +kernel
+example : ctxSqrt 10 .halfAway coarseNone natSqrtRem 2 ⟨21, -1⟩ = .ok (⟨14, -1⟩, some .NoOp) := by decide +kernel
+
+-- the p+1-st digit does occur: 2 / 13 at 2 digits (mode Zero) is 153e-3; 26 / 13 is exact
+example : reprDiv 10 .zero 2 ⟨2, 0⟩ ⟨13, 0⟩ = .ok (⟨153, -3⟩, some .NoOp) ∧
+    reprDiv 10 .zero 2 ⟨26, 0⟩ ⟨13, 0⟩ = .ok (⟨2, 0⟩, none) := by decide +kernel
+-- … and in a subtraction: 12e10 − 1 at 2 digits (mode Zero) keeps the guard digit: 119e9
+example : ctxAddSub 10 .zero coarseNone (digitsI 10) 2 ⟨12, 10⟩ ⟨1, 0⟩ (-1) = (⟨119, 9⟩, some .SubOne) := by
+  decide +kernel
 
 end Dashu.Props.C03
